@@ -204,4 +204,22 @@ func runC09(c *core.Ctx) {
 		}
 	}
 	c.Floor("C09/schedule-pairs-identifiers", 4)
+
+	// ---- S5 the list of obsolete data-trie hashes handed to the eviction list is consumed once:
+	// Commit drops it on every success path (a stale entry would mark a re-created, live data trie for pruning)
+	if fn := anchorM(c, "data/state", "AccountsDB", "Commit"); fn != nil {
+		fld := c.P.Field("data/state", "AccountsDB", "obsoleteDataTrieHashes")
+		mustPass(c, fn, "C09/obsolete-hashes-consumed-once", "AccountsDB.Commit", nil, func(in ssa.Instruction) bool {
+			st, ok := in.(*ssa.Store)
+			if !ok {
+				return false
+			}
+			fa, ok := st.Addr.(*ssa.FieldAddr)
+			if !ok || core.FieldOfAddr(fa) != fld {
+				return false
+			}
+			_, fresh := st.Val.(*ssa.MakeMap)
+			return fresh
+		}, core.SuccessReturn, nil, "obsoleteDataTrieHashes is replaced by an empty map before Commit reports success")
+	}
 }
